@@ -338,6 +338,9 @@ loop:
 			resultMatrix = append(resultMatrix, s)
 		}
 		sort.Sort(resultMatrix)
+		if resultMatrix.ContainsSameLabelset() {
+			return newErrResult(ret, errors.New("vector cannot contain metrics with the same labelset"))
+		}
 		ret.Value = resultMatrix
 		return ret
 	}
@@ -362,6 +365,9 @@ loop:
 					T: q.ts.UnixMilli(),
 				},
 			})
+		}
+		if vector.ContainsSameLabelset() {
+			return newErrResult(ret, errors.New("vector cannot contain metrics with the same labelset"))
 		}
 		result = vector
 	case parser.ValueTypeScalar:
